@@ -1,1 +1,2 @@
+import RallyProofs.Alloc
 import RallyProofs.Versions
